@@ -777,4 +777,255 @@ theorem readAll_no_panic (sizes : List Nat) : ∀ (d : Dec) (acc : List UInt8), 
       · simp
       · exact ih d' _ hrd.1
 
+/-! ## 9. the encoder over a sink with short writes -/
+
+theorem sink_write_interrupted (s s' : Sink) (buf : List UInt8) (h : s.write buf = (.interrupted, s')) :
+    s'.arrived = s.arrived ∧ s'.room = s.room := by
+  unfold Sink.write at h
+  split at h <;> simp_all
+  · obtain ⟨_, rfl⟩ := h; exact ⟨rfl, rfl⟩
+
+theorem sink_take_pos (s : Sink) (per len : Nat) (hr : s.room = none) (hp : 0 < per) (hl : 0 < len) :
+    0 < s.take per len := by
+  unfold Sink.take; rw [hr]; simp only; omega
+
+theorem sink_write_accepted (s s' : Sink) (buf : List UInt8) (k : Nat) (h : s.write buf = (.accepted k, s')) :
+    k ≤ buf.length ∧ s'.arrived = s.arrived ++ buf.take k ∧ (s.room = none → s'.room = none ∧ (0 < buf.length → 0 < k)) := by
+  unfold Sink.write at h
+  split at h
+  · simp at h
+  · rename_i m rest hs
+    simp only [Prod.mk.injEq, WrRes.accepted.injEq] at h
+    obtain ⟨rfl, rfl⟩ := h
+    refine ⟨Sink.take_le .., rfl, fun hr => ⟨by simp [hr], fun hl => sink_take_pos s _ _ hr (by omega) hl⟩⟩
+  · simp only [Prod.mk.injEq, WrRes.accepted.injEq] at h
+    obtain ⟨rfl, rfl⟩ := h
+    refine ⟨Sink.take_le .., rfl, fun hr => ⟨by simp [hr], fun hl => sink_take_pos s _ _ hr (by split <;> omega) hl⟩⟩
+
+/-- `write_all`: everything arrives, or an error is returned and a proper prefix has arrived; a sink that is never
+    full never fails -/
+theorem writeAll_spec (s : Sink) (buf : List UInt8) :
+    ((s.writeAll buf).1 = true → (s.writeAll buf).2.arrived = s.arrived ++ buf) ∧
+    ((s.writeAll buf).1 = false → ∃ j, j < buf.length ∧ (s.writeAll buf).2.arrived = s.arrived ++ buf.take j) ∧
+    (s.room = none → (s.writeAll buf).1 = true ∧ (s.writeAll buf).2.room = none) := by
+  fun_induction Sink.writeAll s buf with
+  | case1 s buf hb =>
+    have : buf = [] := List.eq_nil_of_length_eq_zero hb
+    subst this
+    simp
+  | case2 s buf hb s' h ih =>
+    obtain ⟨ha, hr⟩ := sink_write_interrupted s s' buf h
+    rw [ha, hr] at ih; exact ih
+  | case3 s buf hb s' h =>
+    obtain ⟨_, ha, hr⟩ := sink_write_accepted s s' buf 0 h
+    refine ⟨by simp, fun _ => ⟨0, by omega, by simpa using ha⟩, fun hn => ?_⟩
+    have := (hr hn).2 (by omega); omega
+  | case4 s buf hb k s' h ih =>
+    obtain ⟨hk, ha, hr⟩ := sink_write_accepted s s' buf (k + 1) h
+    obtain ⟨i1, i2, i3⟩ := ih
+    refine ⟨fun ht => ?_, fun hf => ?_, fun hn => ?_⟩
+    · rw [i1 ht, ha, List.append_assoc, List.take_append_drop]
+    · obtain ⟨j, hj, hj'⟩ := i2 hf
+      refine ⟨k + 1 + j, by simp only [List.length_drop] at hj; omega, ?_⟩
+      rw [hj', ha, List.append_assoc]
+      conv => rhs; rw [List.take_add]
+    · exact i3 (hr hn).1
+
+/-- the sink-encoder state stands for the `Vec`-encoder state with the same carry and `inner` = what arrived -/
+def Sim (es : EncS) (e : Enc) : Prop := es.buffer = e.buffer ∧ es.size = e.size ∧ es.inner.arrived = e.inner
+
+/-- result of a step over a sink, relative to the final text `T` that the same step over a `Vec` stands for -/
+def StepOk (es : EncS) (T : List UInt8 → List UInt8) : SinkRes EncS → Prop
+  | .ok es' => ∃ e', T = pendingText e' ∧ e'.size < 3 ∧ Sim es' e' ∧ (es.inner.room = none → es'.inner.room = none)
+  | .ioerr s => es.inner.room ≠ none ∧ ∀ more, ∃ q, q ≠ [] ∧ s.arrived ++ q = T more
+  | .panic => False
+
+theorem writeByteS_sim (es : EncS) (e : Enc) (b : UInt8) (hsim : Sim es e) (h : e.size < 3) :
+    StepOk es (fun more => pendingText e (b :: more)) (writeByteS es b) := by
+  obtain ⟨e1, h1, hs1, hp1⟩ := writeByte_spec e b h
+  obtain ⟨hb, hsz, harr⟩ := hsim
+  unfold writeByte at h1
+  unfold writeByteS
+  rw [hb, hsz]
+  cases hset : e.buffer.set e.size b with
+  | none => rw [hset] at h1; simp at h1
+  | some buffer =>
+    rw [hset] at h1
+    simp only at h1 ⊢
+    by_cases h3 : e.size + 1 = 3
+    · rw [if_pos h3] at h1 ⊢
+      rw [encode3_eq] at h1 ⊢
+      simp only at h1 ⊢
+      generalize hd : [rfcChar _, rfcChar _, rfcChar _, rfcChar _] = dst at h1 ⊢
+      have hdl : dst.length = 4 := by rw [← hd]; rfl
+      have hspec := writeAll_spec es.inner dst
+      revert hspec
+      generalize es.inner.writeAll dst = res
+      obtain ⟨ok, s'⟩ := res
+      intro hspec
+      have he1 : e1 = { inner := e.inner ++ dst, buffer := buffer, size := 0 } := (EncRes.ok.inj h1).symm
+      cases ok with
+      | true =>
+        simp only [StepOk]
+        refine ⟨e1, funext fun more => (hp1 more).symm, hs1, ⟨by rw [he1], by rw [he1], ?_⟩, fun hn => (hspec.2.2 hn).2⟩
+        rw [hspec.1 rfl, harr, he1]
+      | false =>
+        simp only [StepOk]
+        obtain ⟨j, hj, hj'⟩ := hspec.2.1 rfl
+        refine ⟨fun hn => by have := (hspec.2.2 hn).1; simp at this, fun more => ?_⟩
+        simp only at hj'
+        rw [← hp1 more, he1, hj', harr]
+        refine ⟨List.drop j dst ++ rfcEncode (carry { inner := e.inner ++ dst, buffer := buffer, size := 0 } ++ more), ?_, ?_⟩
+        · intro hnil
+          have := congrArg List.length hnil
+          simp only [List.length_append, List.length_drop, List.length_nil] at this
+          omega
+        · simp only [pendingText, List.append_assoc]
+          rw [← List.append_assoc (List.take j dst), List.take_append_drop]
+    · rw [if_neg h3] at h1 ⊢
+      have he1 : e1 = { e with buffer := buffer, size := e.size + 1 } := (EncRes.ok.inj h1).symm
+      simp only [StepOk]
+      exact ⟨e1, funext fun more => (hp1 more).symm, hs1, ⟨by rw [he1], by rw [he1], by rw [he1]; exact harr⟩, id⟩
+
+
+theorem StepOk_trans (es es' : EncS) (T T' : List UInt8 → List UInt8) (r : SinkRes EncS)
+    (hroom : es.inner.room = none → es'.inner.room = none) (hT : ∀ more, T' more = T more)
+    (h : StepOk es' T' r) : StepOk es T r := by
+  have hTT : T' = T := funext hT
+  subst hTT
+  cases r with
+  | panic => exact h
+  | ioerr s => exact ⟨fun hn => h.1 (hroom hn), h.2⟩
+  | ok es'' =>
+    obtain ⟨e', h1, h2, h3, h4⟩ := h
+    exact ⟨e', h1, h2, h3, fun hn => h4 (hroom hn)⟩
+
+theorem writeS_sim (xs : List UInt8) : ∀ (es : EncS) (e : Enc), Sim es e → e.size < 3 →
+    StepOk es (fun more => pendingText e (xs ++ more)) (writeS es xs) := by
+  induction xs with
+  | nil => intro es e hsim h; exact ⟨e, rfl, h, hsim, id⟩
+  | cons b rest ih =>
+    intro es e hsim h
+    have hb := writeByteS_sim es e b hsim h
+    unfold writeS
+    revert hb
+    generalize writeByteS es b = r
+    intro hb
+    cases r with
+    | panic => exact hb
+    | ioerr s => exact ⟨hb.1, fun more => hb.2 (rest ++ more)⟩
+    | ok es' =>
+      obtain ⟨e', hT, hs, hsim', hroom⟩ := hb
+      exact StepOk_trans es es' _ _ _ hroom (fun more => (congrFun hT (rest ++ more)).symm) (ih es' e' hsim' hs)
+
+theorem runOpsS_sim (ops : List EncOp) : ∀ (es : EncS) (e : Enc), Sim es e → e.size < 3 →
+    StepOk es (fun more => pendingText e (written ops ++ more)) (runOpsS es ops) := by
+  induction ops with
+  | nil => intro es e hsim h; exact ⟨e, by simp [written], h, hsim, id⟩
+  | cons op rest ih =>
+    intro es e hsim h
+    cases op with
+    | flush => simpa [runOpsS, written] using ih es e hsim h
+    | write c =>
+      have hc := writeS_sim c es e hsim h
+      unfold runOpsS
+      revert hc
+      generalize writeS es c = r
+      intro hc
+      cases r with
+      | panic => exact hc
+      | ioerr s => exact ⟨hc.1, fun more => by simpa [written] using hc.2 (written rest ++ more)⟩
+      | ok es' =>
+        obtain ⟨e', hT, hs, hsim', hroom⟩ := hc
+        refine StepOk_trans es es' _ _ _ hroom (fun more => ?_) (ih es' e' hsim' hs)
+        have := congrFun hT (written rest ++ more)
+        simp only [written, List.append_assoc] at this ⊢
+        exact this.symm
+
+/-- what `finish` over a sink leaves in the sink, relative to the text `T` -/
+def FinOk (es : EncS) (T : List UInt8) : SinkRes Sink → Prop
+  | .ok s => s.arrived = T ∧ (es.inner.room = none → s.room = none)
+  | .ioerr s => es.inner.room ≠ none ∧ ∃ q, q ≠ [] ∧ s.arrived ++ q = T
+  | .panic => False
+
+theorem fin_spec (es : EncS) (pre dst : List UInt8) (ok : Bool) (s' : Sink) (hpre : es.inner.arrived = pre)
+    (hspec : (ok = true → s'.arrived = es.inner.arrived ++ dst) ∧
+      (ok = false → ∃ j, j < dst.length ∧ s'.arrived = es.inner.arrived ++ dst.take j) ∧
+      (es.inner.room = none → ok = true ∧ s'.room = none)) :
+    FinOk es (pre ++ dst) (bif ok then SinkRes.ok s' else SinkRes.ioerr s') := by
+  cases ok with
+  | true => exact ⟨by rw [hspec.1 rfl, hpre], fun hn => (hspec.2.2 hn).2⟩
+  | false =>
+    obtain ⟨j, hj, hj'⟩ := hspec.2.1 rfl
+    refine ⟨fun hn => by have := (hspec.2.2 hn).1; simp at this, List.drop j dst, ?_, ?_⟩
+    · intro hnil
+      have := congrArg List.length hnil
+      simp only [List.length_drop, List.length_nil] at this
+      omega
+    · rw [hj', hpre, List.append_assoc, List.take_append_drop]
+
+theorem finishS_sim (es : EncS) (e : Enc) (hsim : Sim es e) (h : e.size < 3) :
+    FinOk es (pendingText e []) (finishS es) := by
+  obtain ⟨hb, hsz, harr⟩ := hsim
+  obtain ⟨inner, ⟨x0, x1, x2⟩, size⟩ := e
+  obtain ⟨sink, ⟨y0, y1, y2⟩, ssize⟩ := es
+  simp only at h hb hsz harr
+  cases hb; subst hsz
+  have hs : ssize = 0 ∨ ssize = 1 ∨ ssize = 2 := by omega
+  rcases hs with rfl | rfl | rfl
+  · simp [finishS, pendingText, carry, Buf3.toList, rfcEncode, FinOk, harr]
+  · simp only [finishS, pendingText, carry, Buf3.toList, rfcEncode, encode1_eq, List.take,
+      List.append_nil, gt_iff_lt]
+    generalize [rfcChar _, rfcChar _, (61 : UInt8), 61] = dst
+    have hspec := writeAll_spec sink dst
+    revert hspec
+    generalize sink.writeAll dst = res
+    obtain ⟨ok, s'⟩ := res
+    intro hspec
+    have := fin_spec ⟨sink, ⟨x0, x1, x2⟩, 1⟩ inner dst ok s' harr hspec
+    cases ok <;> simpa using this
+  · simp only [finishS, pendingText, carry, Buf3.toList, rfcEncode, encode2_eq, List.take,
+      List.append_nil, gt_iff_lt]
+    generalize [rfcChar _, rfcChar _, rfcChar _, (61 : UInt8)] = dst
+    have hspec := writeAll_spec sink dst
+    revert hspec
+    generalize sink.writeAll dst = res
+    obtain ⟨ok, s'⟩ := res
+    intro hspec
+    have := fin_spec ⟨sink, ⟨x0, x1, x2⟩, 2⟩ inner dst ok s' harr hspec
+    cases ok <;> simpa using this
+
+/-- the whole run over a sink that starts empty -/
+theorem encodeOpsS_spec (sink : Sink) (ops : List EncOp) (hempty : sink.arrived = []) :
+    FinOk (EncS.new sink) (rfcEncode (written ops)) (encodeOpsS sink ops) := by
+  have hrun := runOpsS_sim ops (EncS.new sink) Enc.new ⟨rfl, rfl, hempty⟩ (by decide)
+  unfold encodeOpsS
+  revert hrun
+  generalize runOpsS (EncS.new sink) ops = r
+  intro hrun
+  have hT : ∀ more, pendingText Enc.new (written ops ++ more) = rfcEncode (written ops ++ more) := by
+    intro more; simp [pendingText, carry, Enc.new]
+  cases r with
+  | panic => exact hrun
+  | ioerr s =>
+    obtain ⟨q, hq, hq'⟩ := hrun.2 []
+    have hq'' : s.arrived ++ q = pendingText Enc.new (written ops ++ []) := hq'
+    exact ⟨hrun.1, q, hq, by rw [hq'', hT]; simp⟩
+  | ok es' =>
+    obtain ⟨e', hT', hs, hsim', hroom⟩ := hrun
+    have hfin := finishS_sim es' e' hsim' hs
+    have htext : pendingText e' [] = rfcEncode (written ops) := by
+      have := congrFun hT' []
+      have h2 : pendingText Enc.new (written ops ++ []) = pendingText e' [] := this
+      rw [← h2, hT]; simp
+    rw [htext] at hfin
+    show FinOk (EncS.new sink) (rfcEncode (written ops)) (finishS es')
+    revert hfin
+    generalize finishS es' = rf
+    intro hfin
+    cases rf with
+    | panic => exact hfin
+    | ioerr s => exact ⟨fun hn => hfin.1 (hroom hn), hfin.2⟩
+    | ok s => exact ⟨hfin.1, fun hn => hfin.2 (hroom hn)⟩
+
 end SurfProofs.Lemmas.Base64
